@@ -59,6 +59,23 @@ fn pool_size_sweep(ctx: &mut Ctx) {
         }
     }
     ctx.max("distinct_first_bytes_in_this_worker", first_bytes.len() as u64);
+    // globals tables and class member tables at the refill boundary
+    for kind in 1..=2usize {
+        for n in 300..=560usize {
+            if ctx.take().is_none() { continue }
+            let (src, expected) = bcprops::sweep_family(kind, n);
+            let bytes = match super::super::pipeline::compile_source(&src) { Ok(b) => b, Err(_) => continue };
+            let bcf = cli::write_file(&ctx.scratch, "sweep.bc", &bytes);
+            let e = cli::simple(&exe, &["execute", bcf.to_str().unwrap()]);
+            ctx.count("programs", 1); ctx.count("cli_pipelines", 1);
+            ctx.nontrivial(&[kind as u8, (n % 256) as u8, (n / 256) as u8]);
+            if !e.ok() || e.stdout != expected.as_bytes() {
+                ctx.violation("roundtrip/file-behaviour-changes", "a serialized program executed from a file behaves differently from the program that was serialized",
+                    json!({"text": format!("{} ({})", if kind == 1 { "n top-level variables" } else { "one object with n fields" }, n), "bytecode_bytes": bytes.len(),
+                           "execute_exit": e.code, "execute_stderr": e.err().chars().take(300).collect::<String>(), "cli": "fml execute x.bc"}));
+            }
+        }
+    }
 }
 
 pub fn run(ctx: &mut Ctx) {
